@@ -35,6 +35,7 @@ type SpecEnv struct {
 	pure     bool // no program state available
 	lenientLocals bool // a local that is not bound on this path reads as an arbitrary value
 	prev     *State // state at the start of the current loop iteration (for prev(e) in iteration clauses)
+	prevNow  *State // inside prev(e): the current state (a variable bound during the iteration, e.g. the loop's own range variables, denotes its current value)
 }
 
 type siteCtx struct {
@@ -103,6 +104,7 @@ func (e *Exec) evalSpec1(x ast.Expr, env *SpecEnv) (Val, types.Type) {
 			s, _ := strconv.Unquote(x.Value)
 			id := e.g.strID(s)
 			e.addFact(mkEq(sx("strlen", mkInt(int64(id))), mkInt(int64(len(s)))))
+			e.strLitBytes(id, s)
 			return iv(mkInt(int64(id))), types.Typ[types.String]
 		case token.CHAR:
 			s, _ := strconv.Unquote(x.Value)
@@ -249,6 +251,11 @@ func (e *Exec) specIdent(id *ast.Ident, env *SpecEnv) (Val, types.Type) {
 						// a local that did not exist in the old state: inside old() it denotes its current value
 						// (old(m[k]) with a local key k reads the old map at the current key)
 						if v, ok := env.cur.vars[o]; ok {
+							return v, o.Type()
+						}
+					}
+					if env.prevNow != nil {
+						if v, ok := env.prevNow.vars[o]; ok {
 							return v, o.Type()
 						}
 					}
@@ -543,12 +550,27 @@ func (e *Exec) specCall(c *ast.CallExpr, env *SpecEnv) (Val, types.Type) {
 			}
 			n := *env
 			n.cur = env.prev
+			n.prevNow = env.cur
 			saved := e.st
 			e.st = env.prev
 			v, t := e.evalSpec1(c.Args[0], &n)
 			if sl, ok := v.(SliceV); ok && t != nil {
 				v = e.snapshotSlice(sl, t)
 			}
+			e.st = saved
+			return v, t
+		case "cur":
+			// cur(e) inside prev(...): e is evaluated in the current state (prev(valOf(cm, cur(cmd.peer))): the total, at the
+			// start of the iteration, of the peer named by the command received during the iteration)
+			if len(c.Args) != 1 || env.prevNow == nil {
+				return e.specErr("cur(e) is only available inside prev(...)")
+			}
+			n := *env
+			n.cur = env.prevNow
+			n.prevNow = nil
+			saved := e.st
+			e.st = env.prevNow
+			v, t := e.evalSpec1(c.Args[0], &n)
 			e.st = saved
 			return v, t
 		case "old":
